@@ -50,13 +50,19 @@ type hier struct {
 	pi    bool        // direct issuer is a dedicated precertificate signing certificate (CT EKU)
 	piAKI bool        // ... that carries an authority key identifier
 	caEKU bool        // the (ordinary) direct issuer carries an extended key usage extension (serverAuth, clientAuth): not a pre-issuer
+	piEKU int         // the signing certificate's extended key usages: 0 = {CT}; 1 = {CT, serverAuth}; 2 = {serverAuth, CT}; 3 = {clientAuth, CT, serverAuth}
 	cas   []*pki.Cert // cas[0] = direct issuer ... cas[n] = root
 }
+
+var piEKUs = [][][]int{{pki.OIDEKUCT}, {pki.OIDEKUCT, pki.OIDEKUServerAuth}, {pki.OIDEKUServerAuth, pki.OIDEKUCT}, {pki.OIDEKUClientAuth, pki.OIDEKUCT, pki.OIDEKUServerAuth}}
 
 func (h *hier) label() string {
 	s := fmt.Sprintf("n=%d issuer=%s", h.n, kinds[h.ik])
 	if h.pi {
 		s += fmt.Sprintf(" preissuer(aki=%v)", h.piAKI)
+		if h.piEKU != 0 {
+			s += fmt.Sprintf(" preissuer-ekus#%d", h.piEKU)
+		}
 	}
 	if h.caEKU {
 		s += " issuer-with-serverAuth-EKU"
@@ -66,8 +72,8 @@ func (h *hier) label() string {
 
 func (h *hier) root() *pki.Cert { return h.cas[h.n] }
 
-func buildHier(n, ik int, pi, piAKI, caEKU bool) *hier {
-	h := &hier{n: n, ik: ik, pi: pi, piAKI: piAKI, caEKU: caEKU, cas: make([]*pki.Cert, n+1)}
+func buildHier(n, ik int, pi, piAKI, caEKU bool, piEKU int) *hier {
+	h := &hier{n: n, ik: ik, pi: pi, piAKI: piAKI, caEKU: caEKU, piEKU: piEKU, cas: make([]*pki.Cert, n+1)}
 	tag := fmt.Sprintf("n%d-%s", n, kinds[ik])
 	if pi {
 		tag += fmt.Sprintf("-pi%v", piAKI)
@@ -75,12 +81,15 @@ func buildHier(n, ik int, pi, piAKI, caEKU bool) *hier {
 	if caEKU {
 		tag += "-eku"
 	}
+	if piEKU != 0 {
+		tag += fmt.Sprintf("-piekus%d", piEKU)
+	}
 	h.cas[n] = pki.NewRoot("C01 root "+tag, caKey(ik, n+1))
 	for d := n; d >= 1; d-- {
 		o := pki.CAOpts{}
 		cn := fmt.Sprintf("C01 int%d %s", d, tag)
 		if d == 1 && pi {
-			o.EKUs = [][]int{pki.OIDEKUCT}
+			o.EKUs = piEKUs[piEKU]
 			o.NoAKI = !piAKI
 			cn = "C01 precert signing " + tag
 		}
@@ -113,6 +122,7 @@ type shape struct {
 	val     string // validity encoding variant
 	exts    []pki.Ext
 	leaf    *pki.Cert
+	alone   bool // the submission is a trusted root certificate on its own: a validated path of length one
 }
 
 func (s *shape) pre() bool { return s.kind != kCert }
@@ -126,6 +136,9 @@ func (s *shape) extLabels() string {
 }
 
 func (s *shape) label() string {
+	if s.alone {
+		return fmt.Sprintf("#%d the root certificate of [%s] submitted on its own", s.id, s.h.label())
+	}
 	return fmt.Sprintf("#%d %s %s leafkey=%s exts=%s validity=%s", s.id, s.kind, s.h.label(), leafKeys[s.leafKey], s.extLabels(), s.val)
 }
 
@@ -169,6 +182,10 @@ var (
 )
 
 func (s *shape) build() {
+	if s.alone {
+		s.leaf = s.h.root()
+		return
+	}
 	cn := fmt.Sprintf("leaf%d", s.id)
 	issuer := s.h.cas[0]
 	var non []pki.Ext
@@ -210,6 +227,9 @@ func (s *shape) build() {
 
 // path is the validated path: leaf, issuers, root.
 func (s *shape) path() [][]byte {
+	if s.alone {
+		return [][]byte{s.leaf.DER}
+	}
 	out := [][]byte{s.leaf.DER}
 	for _, c := range s.h.cas {
 		out = append(out, c.DER)
@@ -220,7 +240,7 @@ func (s *shape) path() [][]byte {
 // submitted is the chain as posted: form 0 omits the root, form 1 includes it.
 func (s *shape) submitted(form int) [][]byte {
 	p := s.path()
-	if form == 0 {
+	if form == 0 && !s.alone {
 		return p[:len(p)-1]
 	}
 	return p
@@ -317,12 +337,14 @@ type world struct {
 
 func (w *world) hier(n, ik int, pi, piAKI bool) *hier { return w.hierE(n, ik, pi, piAKI, false) }
 
-func (w *world) hierE(n, ik int, pi, piAKI, caEKU bool) *hier {
-	k := fmt.Sprintf("%d/%d/%v/%v/%v", n, ik, pi, piAKI, caEKU)
+func (w *world) hierE(n, ik int, pi, piAKI, caEKU bool) *hier { return w.hierX(n, ik, pi, piAKI, caEKU, 0) }
+
+func (w *world) hierX(n, ik int, pi, piAKI, caEKU bool, piEKU int) *hier {
+	k := fmt.Sprintf("%d/%d/%v/%v/%v/%d", n, ik, pi, piAKI, caEKU, piEKU)
 	if h, ok := w.hiers[k]; ok {
 		return h
 	}
-	h := buildHier(n, ik, pi, piAKI, caEKU)
+	h := buildHier(n, ik, pi, piAKI, caEKU, piEKU)
 	w.hiers[k] = h
 	return h
 }
@@ -430,6 +452,24 @@ func newWorld() *world {
 			add(kPreDirect, h, (ik+1)%4, layout{true, 1, 0, 2}, "utc")
 			add(kPreDirect, h, (ik+2)%4, layout{false, 2, 0, 0}, "utc")
 		}
+	}
+	// a precertificate signing certificate is one that has the CT extended key usage, wherever in its list and whatever else is in it
+	for ik := 0; ik < 4; ik++ {
+		for pe := 1; pe < len(piEKUs); pe++ {
+			for _, piAKI := range both {
+				for n := 2; n <= 3; n++ {
+					h := w.hierX(n, ik, true, piAKI, false, pe)
+					add(kPrePI, h, (ik+pe)%4, layout{true, 1, 0, 2}, "utc")
+					add(kPrePI, h, (ik+pe+1)%4, layout{false, 2, 0, 0}, "utc")
+				}
+			}
+		}
+	}
+	// a trusted root submitted on its own: the validated path has length one, the chain part of the extra data is empty
+	for ik := 0; ik < 5; ik++ {
+		s := &shape{id: len(w.shapes), kind: kCert, h: w.hier(0, ik, false, false), alone: true, val: "utc", poison: -1}
+		s.build()
+		w.shapes = append(w.shapes, s)
 	}
 	return w
 }
